@@ -508,7 +508,7 @@ func (w *vfWorld) clientRun(st vfStep) {
 			w.probe("client-run-completed")
 		} else {
 			w.probe("client-run-failed")
-			w.logf("client error: %v", err)
+			w.logf("client error: %s", strings.ReplaceAll(err.Error(), w.dir, "$RUN")) // (the run directory differs per process: keep the log a function of the seed)
 		}
 		w.clientOracles(st, user, home, tr, before, err)
 		tr.failAt = 0
